@@ -114,23 +114,23 @@ its states are on `Track`, and every `{{` token it pushes is as the reference pr
 theorem mainLoop_track {E : Env} (hU : AsciiU E.U) (hE : E.noParseShow = false) (hT : IdentTemplate E.text) :
     ∀ (fuel : Nat) (st : St) (lp : Loop), Track E st lp → ToksOK E.text st.toks →
       Cover E.text (st.base + lp.p) st.toks → Lexer.mu E st lp < fuel →
-    ∃ stF lpF, mainLoop E FHtml fuel st lp = .ok (stF, lpF, none) ∧ ToksOK E.text stF.toks ∧
+    ∃ stF lpF, mainLoop E fuel st lp = .ok (stF, lpF, none) ∧ ToksOK E.text stF.toks ∧
       Cover E.text (stF.base + lpF.p) stF.toks ∧ Track E stF lpF ∧ lpF.p = srcLen E stF := by
   intro fuel
   induction fuel with
   | zero => intro st lp _ _ _ h; omega
   | succ fuel ih =>
     intro st lp hTr hQ hCov hmu
-    obtain ⟨hI, hf, hft, hRall⟩ := track_all hE hTr
+    obtain ⟨hI, hf, hft, hlb, hB, hRall⟩ := track_all hE hTr
     unfold mainLoop
     by_cases hlt : lp.p < srcLen E st
     · rw [if_pos hlt]
       cases hd : delimAt E.text (st.base + lp.p) with
       | false =>
-        obtain ⟨st1, lp1, hs, hp1, hI1, hext1, hmu1, _, _, _⟩ := step_refines hI hlt hf hft hd
+        obtain ⟨st1, lp1, hs, hp1, hI1, hext1, hmu1, _, _, _⟩ := step_refines hI hlt hf hft hd hlb hB
         simp only [hs, bind_ok]
         have hCov1 : Cover E.text (st1.base + lp1.p) st1.toks := by
-          obtain ⟨_, new, hnew, _⟩ := hext1
+          obtain ⟨_, ⟨new, hnew, _⟩, _⟩ := hext1
           rw [hnew]
           intro d hd1 hd2
           by_cases hlt1 : d < st.base + lp.p
@@ -157,9 +157,9 @@ theorem mainLoop_track {E : Env} (hU : AsciiU E.U) (hE : E.noParseShow = false) 
         obtain ⟨st2, lb, idt, rb, hshow, hb2, htk2, lbty, lbcx, lbst, idty, rbty⟩ :=
           lexShow_ident hU e1.le_len hN1
         have hdelim := delim_of_show hfl hshow
-        have hs : step E FHtml st lp = .ok (.cont st2 (resetTok st2 { lp with p := 0 })) := by
+        have hs : step E st lp = .ok (.cont st2 (resetTok st2 { lp with p := 0 })) := by
           rw [step_at_show hf hE h0 h1]; exact hdelim
-        obtain ⟨o, _, _, _, hso, hg, _⟩ := show_step hI hf hft hE h0 h1
+        obtain ⟨o, _, _, _, hso, hg, _⟩ := show_step hI hf hft hE h0 h1 hB
         rw [hs] at hso
         injection hso with hso
         subst hso
@@ -234,11 +234,9 @@ theorem all_shows_ctx (U : Lexer.Unicode) (hU : AsciiU U) (text : Bytes) (hT : I
   simp only [hEtm, Bool.not_true, Bool.false_eq_true, if_false, if_neg hne, if_true]
   rw [shebang_none rfl (by rw [hEt]; exact hT.noSheb)]
   simp only [bind_ok]
-  unfold scanTemplateBody
-  have hctx0 : (initSt FormatHTML ContextHTML).ctx = FormatHTML := rfl
-  have hF : ({ fileCtx := FormatHTML, isHTML := decide (FormatHTML = ContextHTML ∨ FormatHTML = ContextMarkdown) } : Fixed) =
-      FHtml := rfl
-  simp only [hctx0, if_neg hne, hF]
+  unfold scanTemplateBody scanTemplateFrom
+  have hne' : ¬ (initSt FormatHTML ContextHTML).ctx = ContextMarkdown := by decide
+  simp only [if_neg hne']
   have hmu0 : Lexer.mu E st0 lp0 < mainFuel E := by
     unfold Lexer.mu mainFuel
     have := attrCtx_le st0.ctx
@@ -247,7 +245,8 @@ theorem all_shows_ctx (U : Lexer.Unicode) (hU : AsciiU U) (text : Bytes) (hT : I
     (by rw [hEt]; exact hT) (mainFuel E) st0 lp0 Track.init (by intro t ht; cases ht)
     (by intro d hd; exact absurd hd (Nat.not_lt_zero _)) hmu0
   obtain ⟨hIF, hfF, _, _⟩ := track_all hEn hTrF
-  have hml' : mainLoop E FHtml (mainFuel E) (initSt FormatHTML ContextHTML)
+  have hml' : mainLoop E (mainFuel E)
+      { initSt FormatHTML ContextHTML with lbase := (initSt FormatHTML ContextHTML).ctx }
       { p := 0, lin := (initSt FormatHTML ContextHTML).line, tcol := (initSt FormatHTML ContextHTML).col, quote := 0,
         emittedURL := false, jsComment := 0, spacesOnly := true } = .ok (stF, lpF, none) := hml
   simp only [hml', bind_ok]
